@@ -54,7 +54,7 @@ class Gen:
         inputs = self.forced_inputs or (["A", "B"] if r.random() < 0.6 else ["A"])
         start, marker = {}, {}
         for n in names:
-            start[n] = r.choice([0, 0, 0, 0, 1, '"A_0"', None, None])
+            start[n] = r.choice([0, 0, 0, 0, 1, '"A_0"', '"%s_0"' % inputs[-1], None, None])
             marker[n] = r.choice([None, None, None, "hermitian", "antihermitian"])
         # adjoint twins:  Sd = S.adj  (gives structurally Hermitian products Sd @ S)
         twins = {}
@@ -505,8 +505,12 @@ class Prop:
             compiled_inputs = {}
             for name in input_names:
                 tab = tables[name]
+                known = None
+                if specs[name].get("zero0") and specs[name].get("iseed", 0) % 2:
+                    # the caller declares the absent zeroth order up front (data=) instead of through eval
+                    known = {k: v for k, v in tab.items() if not any(k[2:]) and v is zero}
                 compiled_inputs[name] = BlockSeries(eval=(lambda *index, tab=tab: tab.get(tuple(int(i) for i in index), zero)),
-                                                    shape=(nb, nb), n_infinite=ninf, name=name)
+                                                    data=known, shape=(nb, nb), n_infinite=ninf, name=name)
             try:
                 series, linop = series_computation(dict(compiled_inputs), algorithm=algo, scope=dict(scope), operator=matmul)
             except Exception as e:
@@ -724,7 +728,7 @@ class Prop:
         checks = {"marker_hermitian": "        hermitian\n", "marker_antihermitian": "        antihermitian\n",
                   "clause_diagonal": "if diagonal:", "clause_offdiagonal": "if offdiagonal:", "clause_lower": "if lower:",
                   "fn_call": "f(", "fn_series_arg": 'f("', "division": " / ", "ifexp": " if flag", "start_one": "start = 1",
-                  "start_input": 'start = "A_0"'}
+                  "start_input": '_0"\n'}
         for k, pat in checks.items():
             if pat in src:
                 bump(k)
